@@ -225,6 +225,21 @@ def rule_PV(ctx, fm, P='C09.PV'):
                      if not isinstance(x, ast.Constant)]
             lb_in = index_lower_bound(inner[0]) if inner else None
             clamp_active = clamp_active or (lb_in is not None and lb_in < 0)
+    # ... and the clamp keeps the first interval reachable: a lower bound
+    # above 0 assigns points of the first interval to the second one
+    # (negative fraction, clamped: nearest neighbour instead of linear)
+    for a in range(3):
+        d_ = [n for n in psf.body if isinstance(n, ast.Assign) and
+              ast.unparse(n.targets[0]) == axes[a]['lower']]
+        lb = index_lower_bound(d_[0].value) if len(d_) == 1 else None
+        ctx.check(f'{P}.linear', f'_point_vector: cell index of axis '
+                  f'{"xyz"[a]} starts at the first interval',
+                  lb is None or lb == 0, f'the cell index '
+                  f'`{au.stext(d_[0]) if d_ else "?"}` is at least {lb}: '
+                  'points between the first two grid points are moved to '
+                  'another interval (no linear weights there; sampling and '
+                  'source are no longer transposes)',
+                  ctx.where(fm, d_[0] if d_ else psf))
     rdef = [st for st in els if isinstance(st, ast.Assign) and
             ast.unparse(st.targets[0]) == rn]
     clamped = bool(rdef) and (
@@ -382,6 +397,22 @@ def rule_RC(ctx, fm):
     ctx.check('C09.RC.factors', 'get_receiver: factor / component pairing',
               ok, 'components are not weighted by their own direction cosine',
               ctx.where(fm, loop[0]))
+    skip_threshold(ctx, 'C09.RC.factors')
+    ctx.check('C09.RC.factors', 'get_receiver: no extrapolation, no log',
+              has(f"_o_ = {{'method': {gp_[2]}, 'extrapolate': False, "
+                  "'log': False}", gr), 'sampling options changed',
+              ctx.where(fm, gr))
+
+
+def skip_threshold(ctx, rule):
+    """get_receiver leaves out a field component only if its direction
+    cosine is negligible (shared with C07: the adjoint source keeps every
+    component, so a dropped one is missing in misfit but not in gradient)."""
+    fm = ctx.repo.mod(FIELDS)
+    gr = fm.func('get_receiver')
+    loop = [n for n in gr.body if isinstance(n, ast.For) and
+            'maps.interpolate' in ast.unparse(n)]
+    ctx.anchor(len(loop) == 1, 'component loop in get_receiver')
     # a component may be skipped only if its direction cosine is negligible:
     # dropping |cos| up to T is a relative error T against the transpose of
     # the point source, so T must stay below the accuracy of the fields (the
@@ -402,16 +433,12 @@ def rule_RC(ctx, fm):
         except (TypeError, ValueError):
             Tv = None
         okT = Tv is not None and 0 <= Tv <= tols[0]
-        ctx.check('C09.RC.factors', 'get_receiver: component skip threshold',
+        ctx.check(rule, 'get_receiver: component skip threshold',
                   bool(okT), f'components are skipped under '
                   f'`{ast.unparse(sk.test)}`: a direction cosine that is not '
                   f'negligible (> default tol {tols[0]}) is dropped from the '
                   'sampling but kept by the point source', ctx.where(fm, sk),
                   sample={'test': ast.unparse(sk.test)})
-    ctx.check('C09.RC.factors', 'get_receiver: no extrapolation, no log',
-              has(f"_o_ = {{'method': {gp_[2]}, 'extrapolate': False, "
-                  "'log': False}", gr), 'sampling options changed',
-              ctx.where(fm, gr))
 
 
 def rule_RO(ctx):
@@ -583,3 +610,12 @@ def run(ctx):
         def where(self, m, n):
             return self.c.where(m, n)
     adjoint_sources(Only(ctx))
+    # the sampling method of a simulation (`receiver_interpolation`; only
+    # 'linear' is the transpose of the point sources) is a constructor input
+    # that a copy / a stored simulation has to carry
+    from . import c12
+    from ..core.report import Renamed
+    sm = ctx.repo.mod('emg3d/simulations.py')
+    c12.rule_OW5_roundtrip(Renamed(ctx, lambda r: 'C09.RC.options'), sm,
+                           c12.Effects(ctx, sm),
+                           only=('receiver_interpolation',))
